@@ -55,9 +55,12 @@ def _cfg(dw=32, idw=4, wdepth=4, rdepth=4, base=0, rmw=0, nwords=16):
 
 
 def _run(cfg, seed, gen=None, prog=None, bready=("rand", 0.3), rready=("rand", 0.3), wlead=0, wmax="depth", mo="depth",
-         lat=(3, 12), stall=0.3, max_cycles=12000, sweep=True):
+         lat=(3, 12), stall=0.3, max_cycles=None, sweep=True):
     wm = cfg["wdepth"] if wmax == "depth" else wmax
     m = cfg["wdepth"] if mo == "depth" else mo
+    if max_cycles is None:      # generous: the slowest profiles need ~25 cycles per burst; a hang is a verdict, slowness is not
+        nops = gen["nops"] if gen else len(prog["writes"]) + len(prog["reads"])
+        max_cycles = 6000 + 150 * nops
     return dict(cfg=cfg, seed=seed, gen=gen, prog=prog, bready=list(bready), rready=list(rready), wlead=wlead, wmax_out=wm,
                 mem=dict(lat=list(lat), stall=stall, max_outstanding=m), max_cycles=max_cycles, sweep=sweep)
 
@@ -212,17 +215,17 @@ def scenarios(tier, seed):
     c1 = _cfg(wdepth=4, rdepth=4)
     c2 = _cfg(wdepth=3, rdepth=3)
     add("deep", "deep", [_run(c1, s0 + 80, gen=_gen(c1, n, maxlen=1, awgap="b2b", wgap="b2b", pwrite=0.8), bready=("always",),
-                              lat=(6, 12), stall=0.05, mo=64, wmax=None, max_cycles=6000),
+                              lat=(6, 12), stall=0.05, mo=64, wmax=None, max_cycles=3000 + 40 * n),
                          _run(c2, s0 + 81, gen=_gen(c2, n // 2, maxlen=3, awgap="b2b", wgap="b2b", pwrite=0.8), bready=("always",),
-                              lat=(6, 12), stall=0.05, mo=64, wmax=None, max_cycles=3000)])
+                              lat=(6, 12), stall=0.05, mo=64, wmax=None, max_cycles=2000 + 40 * n)])
     c = _cfg(wdepth=4, rdepth=4)
     add("bstall", "bstall", [_run(c, s0 + 82, gen=_gen(c, n // 2, maxlen=1), bready=("block", 200, 180), lat=(3, 4), wmax=None,
-                                  max_cycles=4000)])
+                                  max_cycles=3000 + 60 * n)])
     c = _cfg(wdepth=8, rdepth=8, rmw=1)
     add("rmwmix", "rmwmix", [_run(c, s0 + 83, gen=_gen(c, n // 2, strb="mixed", wgap="b2b"))])
     c = _cfg(wdepth=4, rdepth=4, rmw=1)
     add("rmwlead", "rmwlead", [_run(c, s0 + 84, gen=_gen(c, n // 3, strb="ppartial", awgap="slow", wgap="fast"), wlead=2,
-                                    max_cycles=3000)])
+                                    max_cycles=2000 + 40 * n)])
     return S
 
 
@@ -286,7 +289,7 @@ def execute(sc, workdir):
         raise RuntimeError("driver broke an AXI rule (machinery failure): %s" % json.dumps(env[:3]))
     for i, to in enumerate(timeouts):
         if to and not any(x[1] == i for x in bad):
-            raise RuntimeError("run %d of %s hit max_cycles but the monitor found nothing wrong (harness problem)" % (i, sc["name"]))
+            raise RuntimeError("run %d of %s hit max_cycles but the monitor reported nothing (harness problem)" % (i, sc["name"]))
     bad.sort(key=lambda x: x[-1])
     info = v["info"] or {}
     sample = dict(cycles=cycles, lines=v["lines"], info=info, first_bad=bad[:4],
@@ -361,7 +364,8 @@ def models(tier, seed):
               label="AXIBurst2Beat recurrence = AXI4 beat addresses (all legal headers of the domain)"),
          # the bridge inside the regime, observed by R_AxiMem (same monitor as the real-code traces)
          _mc("D_Axi2Native write path D=2, 2 bursts x <=2 beats, R_AxiMem observer", NW=2),
-         _mc("D_Axi2Native write+read (arbiter) D=2, R_AxiMem observer", NW=1, NR=1),
+         _mc("D_Axi2Native write+read (arbiter) D=2, 1+1 bursts" + ("" if q else ", R_AxiMem observer"), NW=1, NR=1,
+             Observe="FALSE" if q else "TRUE"),
          # negative control: seeded model bug must be found
          _mc("NEGATIVE CONTROL can_write uses >= (command without buffered data)", NW=2, Bug="can_write_ge", expect=True, workers=2),
          # vacuity: the traffic completes (every handshake kind reachable); more goals in the thorough tier
